@@ -266,6 +266,21 @@ def gen_rule(r):
     return rl, SP.rule_spec(rl, sp), sorted(sp.dims), d
 
 
+def same_doc(got, exp):
+    """The doc block in its normal form: a mapping with 'description' and 'examples' lists of
+    strings, compared up to surrounding whitespace of each string."""
+    if exp is None:
+        return not got
+    try:
+        return (
+            [str(x).strip() for x in got["description"]] == [x.strip() for x in exp["description"]]
+            and [str(x).strip() for x in got["examples"]] == [x.strip() for x in exp["examples"]]
+            and all(isinstance(x, str) for x in list(got["description"]) + list(got["examples"]))
+        )
+    except (TypeError, KeyError, AttributeError):
+        return False
+
+
 def check_rule_obj(out, parsed, rl, doc, spec, tag):
     try:
         api = build.build_rule(rl)
@@ -274,9 +289,8 @@ def check_rule_obj(out, parsed, rl, doc, spec, tag):
         return
     eq_both(out, parsed, api, "rule-equal", tag, f"spec {show(spec,300)} parsed to {show(parsed,250)} != API {show(api,250)}")
     if rl.doc is not None or parsed.doc:
-        exp_doc = rl.doc
-        if parsed.doc != exp_doc:
-            out.add("doc-normal-form", f"doc-normal-form|{tag}", f"doc {parsed.doc!r} expected {exp_doc!r} from spec {show(spec.get('doc'),200)}")
+        if not same_doc(parsed.doc, rl.doc):
+            out.add("doc-normal-form", f"doc-normal-form|{tag}", f"doc {parsed.doc!r} expected {rl.doc!r} from spec {show(spec.get('doc'),200)}")
     ref = model.ref_schema_validate(SchemaT([rl]), doc)
     try:
         rt = parsed.test(doc)
@@ -393,7 +407,7 @@ def body_yaml(case):
         if j < len(parsed.rules):
             rl = schema.rules[i]
             pd = parsed.rules[j].doc
-            if (rl.doc is not None or pd) and pd != rl.doc:
+            if (rl.doc is not None or pd) and not same_doc(pd, rl.doc):
                 out.add("doc-normal-form", "doc-normal-form|yaml", f"doc {pd!r} expected {rl.doc!r}")
                 break
     return out
